@@ -108,7 +108,7 @@ def legal(hrp, ver, prog):
     return len(hrp) + 1 + 1 + (len(prog) * 8 + 4) // 5 + 6 <= 90
 
 
-def cases(rng, tier):
+def _cases_core(rng, tier):
     rb = lambda n: bytes(rng.getrandbits(8) for _ in range(n))
     for ver in range(0, 18):
         for ln in range(0, 43):
@@ -178,8 +178,10 @@ def cases(rng, tier):
             # valid checksum over tampered padding / version / length
             data = [B32.find(c) for c in addr[pos + 1:-6]]
             k = rng.random()
-            if k < 0.4 and len(data) > 1:
+            if k < 0.3 and len(data) > 1:
                 data[-1] ^= rng.choice([1, 2, 3])
+            elif k < 0.5:
+                data.append(0)                       # one more all-zero group: over-long (>= 5 bit) zero padding
             elif k < 0.7:
                 data.append(rng.randrange(32))
             else:
@@ -227,6 +229,25 @@ def oracle(line, out):
         if back != "ok %d %s" % (ver, impl.lst(str, prog)):
             return "decode(encode(v, prog)) != (v, prog): %s" % back[:80]
         return None
+    if op == "convertbits":
+        vals, f, t, pad = impl.unlist(int, tok[1]), int(tok[2]), int(tok[3]), tok[4] == "1"
+        if any(x >> f for x in vals):
+            return None if v is None else "out-of-range symbol accepted by convertbits"
+        bits = "".join(format(x, "0%db" % f) for x in vals)
+        if pad:
+            full = bits + "0" * (-len(bits) % t)
+            want = [int(full[i:i + t], 2) for i in range(0, len(full), t)]
+        else:
+            rem = len(bits) % t
+            if rem >= f or (rem and int(bits[-rem:], 2) != 0):
+                want = None
+            else:
+                want = [int(bits[i:i + t], 2) for i in range(0, len(bits) - rem, t)]
+        if want is None:
+            return None if v is None else "convertbits accepted non-zero or over-long padding (%d leftover bits)" % (len(bits) % t)
+        if v is None or impl.unlist(int, v) != want:
+            return "convertbits result differs from plain bit regrouping"
+        return None
     if op == "b32_dec":
         hrp, s = unstr(tok[1]), unstr(tok[2])
         want = indep_decode(hrp, s)
@@ -269,74 +290,71 @@ def extra_checks(rng, tier, g, info):
 
 
 def deep_search(rng, tier, g, cand):
-    """Something broke: if the generator words / constant differ from the reference, search the
-    implementation's own polymod for an undetected error pattern of weight <= 4 (meet in the middle
-    over weight-2 syndromes), and turn it into a concrete address pair."""
+    """Something broke.  (1) the oracle on the disagreeing cases; (2) if the generator words or the Bech32m constant
+    differ from the BIP173/BIP350 values, a meet-in-the-middle search over the IMPLEMENTATION's own polymod for an
+    undetected error pattern of weight <= 4 at length 71, turned into a concrete address pair."""
     import btc_hd_wallet.bech32 as b
-
-    def T(c):
-        return b.bech32_polymod_step(c) if hasattr(b, "bech32_polymod_step") else None
-    # syndromes through the real function: polymod is affine, so syn(e) = polymod(pre+e) ^ polymod(pre+0)
-    L = 71
-    zero = b.bech32_polymod([0] * L)
-    table = {}
-    hit = None
-    base = [0] * L
-    for i in range(L):
-        for a in range(1, 32):
-            base[i] = a
-            s1 = b.bech32_polymod(base) ^ zero
-            base[i] = 0
-            if s1 == 0:
-                hit = {i: a}
-                break
-            table.setdefault(s1, []).append({i: a})
-        if hit:
-            break
-    if not hit:
-        single = [(i, a, next(iter(k for k, v in table.items() if {i: a} in v))) for i in range(0) for a in range(0)]
-        # weight 2 syndromes
-        pairs = {}
-        singles = [(s, e[0]) for s, e in table.items()]
-        for x in range(len(singles)):
-            s1, e1 = singles[x]
-            for y in range(x + 1, len(singles)):
-                s2, e2 = singles[y]
-                if set(e1) == set(e2):
-                    continue
-                s = s1 ^ s2
-                if s == 0:
-                    hit = dict(e1, **e2)
-                    break
-                if s in pairs and not (set(pairs[s]) & (set(e1) | set(e2))):
-                    hit = dict(pairs[s], **dict(e1, **e2))
-                    break
-                pairs.setdefault(s, dict(e1, **e2))
-            if hit:
-                break
-    if hit:
-        # build a concrete address pair: a valid 40-byte-program address has 71 data symbols
-        hrp = "bc"
-        addr = b.encode(hrp, 1, bytes(range(40)))
-        if addr:
-            pos = addr.rfind("1")
-            s = list(addr)
-            dl = len(addr) - pos - 1
-            for i, a in hit.items():
-                j = pos + 1 + (i - (L - dl))
-                if j <= pos:
-                    break
-                s[j] = b.CHARSET[b.CHARSET.find(s[j]) ^ a]
-            else:
-                s2 = "".join(s)
-                if s2 != addr and b.decode(hrp, s2) != (None, None):
-                    yield ("b32_dec %s %s" % (sx(hrp), sx(s2)),
-                           "undetected %d-symbol error: %s and %s both decode" % (len(hit), addr, s2))
-                    return
     for l in cand:
         msg = oracle(l, impl.run(l))
         if msg:
             yield l, msg
+            return
+    if g and list(g.get("polymodGen", GEN)) == GEN and g.get("bech32mConst", M_CONST) == M_CONST:
+        return
+    L = 71
+    zero = b.bech32_polymod([0] * L)
+    single = []                                   # (syndrome, position, symbol-difference)
+    base = [0] * L
+    for i in range(L):
+        for a in range(1, 32):
+            base[i] = a
+            single.append((b.bech32_polymod(base) ^ zero, i, a))
+            base[i] = 0
+    hit = None
+    seen1 = {}
+    for s1, i, a in single:
+        if s1 == 0:
+            hit = {i: a}
+            break
+        seen1.setdefault(s1, (i, a))
+    if hit is None:
+        pairs = {}
+        for x in range(len(single)):
+            s1, i1, a1 = single[x]
+            for y in range(x + 1, len(single)):
+                s2, i2, a2 = single[y]
+                if i1 == i2:
+                    continue
+                sm = s1 ^ s2
+                if sm == 0:
+                    hit = {i1: a1, i2: a2}
+                    break
+                if sm in seen1 and seen1[sm][0] not in (i1, i2):
+                    hit = {i1: a1, i2: a2, seen1[sm][0]: seen1[sm][1]}
+                    break
+                q = pairs.get(sm)
+                if q is not None and not ({q[0], q[2]} & {i1, i2}):
+                    hit = {i1: a1, i2: a2, q[0]: q[1], q[2]: q[3]}
+                    break
+                if q is None:
+                    pairs[sm] = (i1, a1, i2, a2)
+            if hit:
+                break
+    if not hit:
+        return
+    hrp = "bc"
+    addr = b.encode(hrp, 1, bytes(range(40)))     # 71 data symbols
+    if not addr:
+        return
+    pos = addr.rfind("1")
+    s = list(addr)
+    for i, a in hit.items():
+        j = pos + 1 + i
+        s[j] = b.CHARSET[b.CHARSET.find(s[j]) ^ a]
+    s2 = "".join(s)
+    if s2 != addr and b.decode(hrp, s2) != (None, None):
+        yield ("b32_dec %s %s" % (sx(hrp), sx(s2)),
+               "undetected %d-symbol substitution: %s and %s both decode" % (len(hit), addr, s2))
 
 
 known_match = common.no_known
@@ -350,3 +368,9 @@ def literal_ops(lit):
         yield "b32_enc %s %d %s" % (sx("bc"), lit, hx(bytes(20)))
     if lit <= 84:
         yield "b32_enc %s 1 %s" % (sx("x" * lit), hx(bytes(20)))
+
+
+def cases(rng, tier):
+    from . import extra
+    yield from _cases_core(rng, tier)
+    yield from extra.cases_for('b32addr', rng, tier)
